@@ -8,7 +8,7 @@
    with a literal condition is reduced AGAIN after the branch was selected (unlike
    constred.c).  == and != on two ints have no arm (the initialiser is then rejected with
    "could not reduce enumerator index").
-   DEFECT: / and % use the raw C operators: INT_MIN / -1 is a SIGFPE inside the compiler. *)
+   / and % are  (b == -1) ? -a : a / b  and  (b == -1) ? 0 : a % b  as in constred.c and the VM. *)
 From Coq Require Import ZArith Bool.
 From NV Require Import Arith.NumTy Arith.Bits Arith.IntOps Arith.Promote Arith.Constred.
 Local Open Scope Z_scope.
@@ -20,8 +20,8 @@ Definition ered_bin (o : binop) (a b : lit) : lres :=
       | Add => LR (LInt (iadd 32 x y))
       | Sub => LR (LInt (isub 32 x y))
       | Mul => LR (LInt (imul 32 x y))
-      | Div => of_ires32 (cdiv 32 x y)
-      | Mod => of_ires32 (cmod 32 x y)
+      | Div => of_ires32 (idiv 32 x y)
+      | Mod => of_ires32 (imod 32 x y)
       | OLt | OGt | OLe | OGe => LR (LBool (cmp_int o x y))
       | BAnd => LR (LInt (iand 32 x y)) | BOr => LR (LInt (ior 32 x y))
       | BXor => LR (LInt (ixor 32 x y))
